@@ -103,8 +103,10 @@ var _ rpc.Resources
 //@       (forall x *Subscription :: x.state == stateDisposed ==> x.resourceSub == nil)
 //@   ensures[C02,C08] old(s.direct) > 0 ==> callcount("traverse") == old(callcount("traverse")) && callcount("Dispose") == old(callcount("Dispose")) &&
 //@       callcount("Unsend") == old(callcount("Unsend")) && (forall x *Subscription :: x.state == old(x.state) && x.indirectsent == old(x.indirectsent))
+// (the root counts as sent if the client holds it - or held it until the delete event that led
+// here: its references then lose a sent parent, and are reset to not-sent when it was their last)
 //@   assert[C02] s.traverse#1: arg0 == gcStateRoot && has(refs, s.rid) && refs[s.rid] == rr && rr.sub == s && rr.indirect == s.indirect && rr.indirectsent == s.indirectsent &&
-//@       rr.state == gcStateNone && sentDiff == ite(s.state == stateSent, 1, 0) && sent == (s.state == stateSent) && card(refs) == 1
+//@       rr.state == gcStateNone && sentDiff == ite(s.state == stateSent || s.state == stateDeleted, 1, 0) && sent == (s.state == stateSent || s.state == stateDeleted) && card(refs) == 1
 //@   assert[C02] s.traverse#2: arg0 == gcStateDelete && !(rr.indirect > 0 && !(sent && rr.indirectsent == 0))
 //@   assert[C02] return#2: rr.indirect > 0 && !(sent && rr.indirectsent == 0)
 // (every disposal comes before the first reset to not-sent: a disposed parent gives back the
